@@ -743,10 +743,9 @@ struct DoubleSize<Number_T, 64U> {
         dividend_high += carry;
         // -----------------------
         if (original_dividend_high > dividend_high) {
-            // Overflow
-            constexpr Number_T overflow_dividend = (Number_T{1} << (width_ - 1U));
-
-            dividend_high += ((overflow_dividend % (divisor >> 1U)) << 1U);
+            // Overflow: the true sum is (dividend_high + 2^width) and, both addends being below the
+            // divisor, it is below twice the divisor; subtract the divisor once (add 2^width - divisor).
+            dividend_high += (Number_T{0} - divisor);
             ++dividend_low;
         }
 
